@@ -67,7 +67,7 @@ LGM = 'sempler.lganm.'
 PROPS['C01'] = dict(level='proof', functions=[LGM + 'LGANM.sample', LGM + 'LGANM.__init__'], case_filter={LGM + 'LGANM.sample': {'population': True}}, bounded_only=[LGM + '_parse_interventions'], bounded=[], design='DESIGN.md §4 C01', technique=TECH,
                     note=NOTE + ' A-LINALG; L-UNITRI (I - W^T non-singular for a DAG) and L-GAUSS (the law of an acyclic linear-Gaussian SEM is N(mean, cov) with those moments) are cited, not mechanised. The contract of _parse_interventions is assumed at its call sites and checked only by the bounded tier.',
                     claim='LGANM.sample(population=True) is proved, for every model size, every do/noise/shift dict (tuple or scalar parameters, any overlap, {} or None), to work on parameters mu\', var\', W\' that are entry by entry the intervened ones (do overrides noise overrides shift; scalar = variance 0; do-targets lose their incoming edges) and to return mean, cov with (I-W\'^T) mean = mu\' and (I-W\'^T) cov (I-W\'^T)^T = diag(var\'); the model is not modified and the result is fresh.')
-ALL_CONTRACTED = sorted(set(LEAF_REL + STRUCT + TOPO + ['sempler.anm.ANM.sample', 'sempler.anm.ANM.__init__'] + [U + x for x in ('descendants', 'desc', 'ancestors', 'an', 'transitive_closure', 'chain_component', 'separates', 'mec', 'imec', 'is_chain_graph', 'chain_graph', 'pdag_to_cpdag', 'pdag_to_icpdag', 'has_consistent_extension')] + [U + 'rule_1', U + 'rule_2', U + 'rule_3', U + 'rule_4', U + 'is_consistent_extension', U + 'matrix_block', ND + '__init__', ND + 'marginal', ND + 'conditional', ND + 'regress', ND + 'mse', ND + 'sample',
+ALL_CONTRACTED = sorted(set(LEAF_REL + STRUCT + TOPO + [U + 'split_data', 'sempler.anm.ANM.sample', 'sempler.anm.ANM.__init__'] + [U + x for x in ('descendants', 'desc', 'ancestors', 'an', 'transitive_closure', 'chain_component', 'separates', 'mec', 'imec', 'is_chain_graph', 'chain_graph', 'pdag_to_cpdag', 'pdag_to_icpdag', 'has_consistent_extension')] + [U + 'rule_1', U + 'rule_2', U + 'rule_3', U + 'rule_4', U + 'is_consistent_extension', U + 'matrix_block', ND + '__init__', ND + 'marginal', ND + 'conditional', ND + 'regress', ND + 'mse', ND + 'sample',
                                                             G + 'dag_avg_deg', G + 'dag_full', G + 'intervention_targets', LGM + 'LGANM.__init__', LGM + 'LGANM.sample',
                                                             'sempler.noise.normal', 'sempler.noise.uniform', 'sempler.noise.laplace', 'sempler.noise.zero', 'sempler.functions.null']))
 PROPS['C13'] = dict(level='proof', functions=['sempler.anm.ANM.sample', G + 'dag_avg_deg', G + 'dag_full', G + 'intervention_targets', LGM + 'LGANM.__init__', LGM + 'LGANM.sample', ND + 'sample'],
@@ -87,9 +87,9 @@ PROPS['C02'] = dict(level='proof', functions=['sempler.anm.ANM.sample', 'sempler
                     concrete_skip=['sempler.anm.ANM.sample', 'sempler.anm.ANM.__init__'], design='DESIGN.md §4 C02, A.3', technique=TECH + '; user callables as a ghost call log',
                     note=NOTE + ' A-CALLABLE: assignment / noise / intervention callables are opaque; the k-th variable\'s calls are logged as ghost functions of k (argument matrix, column map, return value, draws) and each is invoked at most once per pass (obligation). All assignments of a model are assumed to return the same shape kind within one case (scalar, (n,), (n,1)); mixed shapes, None/null assignments and the concrete re-evaluation are covered by the bounded harness vkb.c02.',
                     claim='ANM.sample is proved (loop invariant over the stored topological ordering, all graphs, sizes, n >= 0, all do/shift/noise dicts) to return an n x p array in which every do-target column is exactly its intervention draw and every other column is the value returned by its assignment plus (original noise + shift | new noise | original noise), where the assignment received exactly one column per parent, in increasing variable index, holding the final sampled values of those parents; the constructor establishes the topological ordering (via the proved contract of topological_ordering), raises ValueError exactly for cyclic graphs and stores copies.')
-PROPS['C17'] = dict(level='exploration', functions=[], bounded=['vkb.c17'], design='DESIGN.md §4 C17', technique=TECH_B,
-                    note='split_data is not yet under deductive contract (dict of lists of arrays, generator state threaded through two nested loops); decided on the enumerated domain only.',
-                    claim='split_data is run on unique-id data for all listed sizes x ratio vectors (fractions with denominators <= 10, up to 4 folds) x seeds: per-environment multiset partition, fold sizes round(n x ratio) with the last fold taking the rest, determinism in the seed, inputs untouched, ValueError exactly beyond 1e-6.')
+PROPS['C17'] = dict(level='proof', functions=[U + 'split_data'], bounded=['vkb.c17'], concrete_skip=[U + 'split_data'], design='DESIGN.md §4 C17, A.3', technique=TECH + '; FP-EQ for the ratio sum',
+                    note=NOTE + ' FP-EQ: np.sum of the ratio list = exact sum x (1 + theta), |theta| <= 1e-12 (requires at most 1000 ratios in [0,1]); round(x) is an integer within 1/2 of x; A-RNG: shuffle permutes rows by a bijection determined by the generator state (the permutation of environment e is the ghost function shuffle_perm(e, .)). That consecutive half-open intervals of a monotone sequence from 0 to n partition [0, n) (hence every observation lies in exactly one fold) is the cited lemma L-PART; determinism in the seed is C13 (vkb.c13). The concrete re-evaluation is done by vkb.c17.',
+                    claim='split_data is proved, for every list of environments of any sizes and every ratio vector, to return for fold i and environment e exactly the rows sigma_e[lo_i : hi_i] of data[e] with lo_0 = 0, lo_{i+1} = min(n, lo_i + round(n x ratio_i)) and the last fold running to n (nothing is moved across environments), to raise ValueError whenever the exact ratio sum is off by more than 1e-6 and never when it is exactly 1 (whatever its floating-point value), to leave the input arrays untouched and to return fresh arrays.')
 PROPS['C19'] = dict(level='exploration', functions=[], bounded=['vkb.c19'], design='DESIGN.md §4 C19', technique=TECH_B,
                     note='sempler.semi / drf.code run against the deterministic stand-in backend /verif/fake_rpy2 (R itself is out of scope); pandas and the forest are external, so no deductive contract is attempted yet.',
                     claim='DRFNet fitted through the stand-in backend: output shapes, values drawn from the observed values of the same variable and environment, independent bootstrap of source variables, the backend receives the synthetic parent columns in increasing index order and the forest fitted on exactly those parents, bit-identical repeats under a seed (0 included), documented TypeError/ValueError for invalid graph/data/n.')
